@@ -182,6 +182,28 @@ CHECKS["C14"] = dict(
          "running_filter_fast is outside the claim.",
     design="DESIGN.md section 4 (C14)")
 
+CHECKS["C04"] = dict(
+    engine="E2 pysym: byte accounting of the real writers/readers (cwrite, prep_outfile, to_/from_ tim, dat, spec, fft, to_file, requantize) over a symbolic write log; z3",
+    technique="dynamic symbolic execution of the real writer and reader bytecode with dtype-tagged functional arrays; the reader's np.fromfile window is mapped back onto the bytes written; z3 (LIA+UF, Skolem index) decides counts, widths and element identity; models replayed on real files",
+    text="cwrite through prep_outfile for every depth {1,2,4,8,16,32} x in-memory dtype {uint8,uint16,int64,float32,float64}: either the write is "
+         "refused before any data byte, or bytes*8 = samples*nchans*nbits, the item type (or packing) is the declared depth's, representable "
+         "values are stored unchanged in order and the reader's inferred sample count equals the samples written. .tim/.dat/.spec/.fft: the "
+         "real from_* reader run on the bytes the real to_* writer produced returns the same number of samples/bins with identical values "
+         "(no header byte read as a sample). to_file writes a 32-bit time-major block after one header; requantize writes at nbits_out.",
+    note="np.tofile/fromfile and encode_header are trusted stubs; .inf text and astropy formatting outside; values assumed representable at the declared depth.",
+    design="DESIGN.md section 4 (C04)")
+
+CHECKS["C05"] = dict(
+    engine="E2 pysym on the real header codec (encode_header/encode_key/parse_header/_read_string/edit_header/parse_radec, from_sigproc frame mapping) over a token model of struct/files; z3",
+    technique="dynamic symbolic execution of the real SIGPROC header codec with symbolic field values (struct and file objects as token-level stubs); z3 decides byte/field equality per path; parse_radec's sexagesimal string is parsed back symbolically; models replayed with real struct and files",
+    text="For every tuple of 1..2 (quick) / 3 (thorough) recognised keys in any order with symbolic numeric values: encode(parse(bytes)) = bytes, "
+         "parse(encode(h)) = h, hdrlen = bytes consumed, datalen = file length - hdrlen. edit_header for every recognised key (and an unknown "
+         "one) with symbolic/shorter/longer values: either only that key's value bytes change at constant length, or it raises with nothing "
+         "written. from_sigproc maps the (pulsarcentric, barycentric) flags written by to_sigproc back to the same frame. parse_radec: for every "
+         "DDMMSS.S/HHMMSS.S the sexagesimal string it builds decodes to the same magnitude and to the sign of src_dej, including 0 > dec > -1 deg.",
+    note="struct pack/unpack and astropy's sexagesimal parser are trusted stubs; string values from a small alphabet; 0.01-arcsec astropy accuracy outside.",
+    design="DESIGN.md section 4 (C05)")
+
 NOT_APPLICABLE = {}
 
 PENDING = "check not built yet in this round (see DESIGN.md section 8 for the build order); no claim is made"
